@@ -52,12 +52,15 @@ func countDotDot(p string) int {
 func genHostile(t *rapid.T) (string, string) {
 	leaf := rapid.SampledFrom([]string{"x", "victim", "alice", "planted", "client", "a b", "k_hmac", ".hidden", "version", ".lock"}).Draw(t, "leaf")
 	up := rapid.SampledFrom([]string{"../", "../", "../../", "../../../", "..\\", "a/../../", "./../", "client/../../", "a/b/../../../"}).Draw(t, "up")
-	switch class := rapid.SampledFrom([]string{"dotdot", "dotdot", "dotdot-canary", "dotdot-canary", "sep", "backslash", "nul", "dots", "abs", "long", "deep", "empty", "valid"}).Draw(t, "class"); class {
+	switch class := rapid.SampledFrom([]string{"dotdot", "dotdot", "dotdot-canary", "dotdot-canary", "dotdot-sibling-prefix", "sep", "backslash", "nul", "dots", "abs", "long", "deep", "empty", "valid"}).Draw(t, "class"); class {
 	case "dotdot":
 		mid := rapid.SampledFrom([]string{"", "", "newdir/", "canary/", "root/"}).Draw(t, "mid")
 		return up + mid + leaf, class
 	case "dotdot-canary":
 		return rapid.SampledFrom([]string{"../canary/", "..\\canary\\", "./../canary/", "a/../../canary/", "../../l2/canary/"}).Draw(t, "upc") + leaf, class
+	case "dotdot-sibling-prefix":
+		// a sibling of the root whose name starts with the root's name: a containment check by string prefix lets it pass
+		return rapid.SampledFrom([]string{"../root-backup/", "../root.bak/", "../rootx/", "../root_old/client/", "a/../../root2/", "../root/../root-backup/", "..\\root-backup\\"}).Draw(t, "ups") + leaf, class
 	case "sep":
 		return rapid.SampledFrom([]string{"a/", "/", "a//", "a/b/", "/a/", "//"}).Draw(t, "pre") + leaf + rapid.SampledFrom([]string{"", "/", "/x", "//x"}).Draw(t, "post"), class
 	case "backslash":
